@@ -13,7 +13,7 @@ ASSUMPTIONS = ["only the violation kinds listed in the property are in scope"]
 
 
 def trees(tier):
-    return [("core", corpus.CORE), ("pairs", corpus.pairs(tier, corpus.seed(), 80)[0])]
+    return [("core", corpus.CORE), ("pairs", corpus.pairs(tier, corpus.seed(), 80 if tier == "quick" else None)[0])]
 
 
 def programs(tier):
@@ -54,7 +54,7 @@ def jobs(tier):
         sites = count_sites(types, c["instrs"], max(ccfg["counts"]) + 1)
         js.append(dict(name=f"refused[{c['name']}]", fn="refused", args=[corpus.closure(types, c["instrs"]), c, ccfg, sites + 2], tree="core", collect_models=2,
                        may_be_empty=False, expect=["an object violating its declaration is refused (SerializationError / ValueError)"]))
-    _, ptypes, pcls = corpus.pairs(tier, corpus.seed(), 80)
+    _, ptypes, pcls = corpus.pairs(tier, corpus.seed(), 80 if tier == "quick" else None)
     for c in pcls:
         sites = count_sites(ptypes, c["instrs"], mult)
         if sites == 0:
